@@ -144,3 +144,15 @@ Definition run_evobj (T : tables) (r : root) (input : list Z) : string :=
   | _ => "None"
   end.
 
+(** [events_to_objs] applied to the events of an accepted strict stream decode: one object per message *)
+Definition run_sevobj (T : tables) (input : list Z) : string :=
+  match decode T true RStream input with
+  | (evs, OAccepted) =>
+      let objs := events_to_objs T (only_events (map fst evs)) in
+      if forallb (fun o => match o with Some _ => true | None => false end) objs
+      then sconcat ";" (map (fun o => match o with Some v => show_value v | None => "" end) objs)
+      else "CRASH"
+  | _ => "None"
+  end.
+
+
